@@ -1,1 +1,76 @@
 // Kani contract harnesses for /repo/arrow-ipc/src/compression.rs (child module: sees private items via super::)
+use super::*;
+#[path = "/verif/kani/support/spec.rs"]
+mod spec;
+use spec::*;
+
+// Contract (C04, C08-style totality): read_uncompressed_size(buffer) for arbitrary bytes of any length
+// 0..=12: Ok(v) <=> buffer.len() >= 8, and then v is the little-endian i64 of the first 8 bytes; a
+// shorter buffer is an Err, never a panic or an out-of-bounds read. (The function reads only the first
+// 8 bytes, so lengths above 12 add nothing.)
+// @unit name=read_uncompressed_size_prefix props=C04 kind=bounded bound=buffer_len<=12 fns=read_uncompressed_size
+#[kani::proof]
+#[kani::unwind(10)]
+#[kani::stub(alloc::fmt::format, stub_format)]
+fn read_uncompressed_size_prefix() {
+    let bytes: [u8; 12] = kani::any();
+    let len: usize = kani::any();
+    kani::assume(len <= 12);
+    let r = read_uncompressed_size(&bytes[..len]);
+    assert!(r.is_ok() == (len >= 8));
+    if let Ok(v) = &r {
+        let mut want: u64 = 0;
+        let mut i = 0;
+        while i < 8 {
+            want |= (bytes[i] as u64) << (8 * i);
+            i += 1;
+        }
+        assert!(*v == want as i64);
+    }
+    kani::cover!(r.is_ok() && len == 8);
+    kani::cover!(r.is_err() && len == 7);
+    kani::cover!(matches!(r, Ok(-1)));
+    std::mem::forget(r);
+}
+
+// Contract (C04): decompress_to_buffer(input) dispatch on the 8-byte length prefix, for arbitrary input
+// of 0..=12 bytes and either codec: shorter than 8 bytes => Err; prefix 0 => Ok(empty buffer);
+// prefix -1 ("not compressed") => Ok(exactly the bytes after the prefix); any other negative prefix =>
+// Err (never a huge allocation or a panic). A positive prefix goes to the codec engine (not decided
+// here; the default build has no codec feature and returns Err).
+// @unit name=decompress_prefix_dispatch props=C04 kind=bounded bound=input_len<=12 fns=CompressionCodec::decompress_to_buffer,read_uncompressed_size
+#[kani::proof]
+#[kani::unwind(10)]
+#[kani::stub(alloc::fmt::format, stub_format)]
+fn decompress_prefix_dispatch() {
+    let bytes: [u8; 12] = kani::any();
+    let len: usize = kani::any();
+    kani::assume(len <= 12);
+    let input = Buffer::from_slice_ref(&bytes).slice_with_length(0, len);
+    let codec = if kani::any() { CompressionCodec::Lz4Frame } else { CompressionCodec::Zstd(kani::any()) };
+    let mut ctx = DecompressionContext::new();
+    let r = codec.decompress_to_buffer(&input, &mut ctx);
+    let prefix = i64::from_le_bytes([bytes[0], bytes[1], bytes[2], bytes[3], bytes[4], bytes[5], bytes[6], bytes[7]]);
+    if len < 8 {
+        assert!(r.is_err());
+    } else if prefix == 0 {
+        assert!(r.as_ref().is_ok_and(|b| b.is_empty()));
+    } else if prefix == -1 {
+        match &r {
+            Ok(b) => {
+                assert!(b.len() == len - 8);
+                let i: usize = kani::any();
+                if i < len - 8 { assert!(b.as_slice()[i] == bytes[8 + i]); }
+            }
+            Err(_) => assert!(false),
+        }
+    } else if prefix < 0 {
+        assert!(r.is_err());
+    }
+    kani::cover!(len == 12 && prefix == -1);
+    kani::cover!(len == 8 && prefix == 0);
+    kani::cover!(len >= 8 && prefix < -1);
+    kani::cover!(len >= 8 && prefix > 0);
+    std::mem::forget(r);
+    std::mem::forget(ctx);
+}
